@@ -36,6 +36,16 @@ def gen_graph(rng, wide=False):
     for p in g["products"]:
         if rng.random() < 0.2:
             p["tags"] = p["tags"] + ["beta"]
+    # the same version declared for a second flavor in the same stack, tagged there (also with tags the version does not
+    # carry for this flavor): nothing of the other flavor may be touched by a removal for this one
+    if rng.random() < 0.3:
+        taken = set()
+        for p in rng.sample(g["products"], min(len(g["products"]), rng.choice([1, 2, 3]))):
+            if p.get("notable") or p.get("missing"):
+                continue
+            tg = [t for t in rng.choice([["current"], ["current"], ["beta"], ["current", "beta"], []]) if (p["name"], t) not in taken]
+            taken |= {(p["name"], t) for t in tg}
+            p["also"] = {"flavor": "Linux64", "tags": tg}
     # a tag names one version per product
     seen = set()
     for p in g["products"]:
@@ -102,7 +112,7 @@ def run_impl(job):
         L.set_up_in_env(s, setup)
         if ro:
             L.readonly_database(s)
-        before, dbb = L.snapshot(s), L.db_listing(s)
+        before, dbb, otherb = L.snapshot(s), L.db_listing(s), L.db_listing(s, others=True)
         flags = (["-R"] if rec else []) + ([] if check else ["-N"]) + (["-F"] if force else [])
         if how == "version":
             args = ["remove"] + flags + [name, version]
@@ -111,14 +121,14 @@ def run_impl(job):
         else:
             args = ["remove", "-t", how[6:]]
         r = L.run_cli(args, record=())
-        after, dba = L.snapshot(s), L.db_listing(s)
+        after, dba, othera = L.snapshot(s), L.db_listing(s), L.db_listing(s, others=True)
         if r["error"] is None and r["rc"] == 0:
             outcome = "ok"
         elif r["error"] is None and r["rc"] == 2 and how.startswith("tag:"):
             outcome = "NoSuchTag"
         else:
             outcome = r["error"] or "rc=%s" % r["rc"]
-        return {"out": outcome, "before": before, "after": after, "dbb": dbb, "dba": dba}
+        return {"out": outcome, "before": before, "after": after, "dbb": dbb, "dba": dba, "otherb": otherb, "othera": othera}
     finally:
         common.rmtree(root)
 
@@ -141,6 +151,13 @@ def canon_model(a):
 
 def oracle(R, graph, case, io_, closures):
     name, version, rec, check, force, setup, ro, how = case
+    # whatever the command does for this flavor: declarations, tags and directories of another flavor stay as they were
+    if io_["othera"] != io_["otherb"]:
+        yield ("other_flavor_untouched", None, "other flavors before %s, after %s" % (io_["otherb"], io_["othera"]))
+    for path, h in io_["before"].items():
+        if path.startswith("Linux64/") and io_["after"].get(path) != h:
+            yield ("other_flavor_untouched", None, "%s was changed or deleted" % path)
+            break
     if how.startswith("untag:"):
         # the tag is taken off every product; no declaration, no directory, no other tag is touched
         t = how[6:]
@@ -165,6 +182,12 @@ def oracle(R, graph, case, io_, closures):
     top = (name, version, True)
     out = io_["out"]
     before, after = io_["before"], io_["after"]
+    # database files shared with another flavor legitimately survive (with that flavor's group only)
+    shared = set()
+    for x in io_["otherb"]["decl"]:
+        shared.add("ups_db/%s/%s.version" % (x[0], x[1]))
+    for x in io_["otherb"]["tags"]:
+        shared.add("ups_db/%s/%s.chain" % (x[0], x[1]))
     decl_b = {tuple(x) for x in io_["dbb"]["decl"]}
     decl_a = {tuple(x) for x in io_["dba"]["decl"]}
     listed, expanded = R.closure(top, ignore_j=True)                   # remove follows -j dependencies too
@@ -260,7 +283,11 @@ def oracle(R, graph, case, io_, closures):
         elif parts[0] == "ups_db" and len(parts) == 3 and parts[2].endswith(".chain"):
             tv = [t for t in tags_b if t[0] == parts[1] and t[1] == parts[2][:-len(".chain")]]
             owner = (parts[1], tv[0][2]) if tv else None
-        if owner in gone:
+        if path in shared:
+            if path not in after:
+                yield ("other_flavor_untouched", None, "%s, which also holds a record of another flavor, is gone" % path)
+                return
+        elif owner in gone:
             if path in after:
                 yield ("removed_completely", None, "%s survives the removal of %s" % (path, owner))
                 return
@@ -335,6 +362,11 @@ def evaluate(ctx, graphs, per_graph=18, all_cases=False):
                 others = [k for k in R.decl if k != (case[0], case[1])]
                 users_of[top] = (any(top in closures((k[0], k[1], True))[0] for k in others),
                                  any(mine & closures((k[0], k[1], True))[0] for k in others))
+            tp = R.decl.get((case[0], case[1]))
+            if tp and tp.get("also") and io_["out"] == "ok":
+                ctx.hist("target:removed_with_second_flavor")
+                if any(t not in tp.get("tags", []) for t in tp["also"]["tags"]):
+                    ctx.hist("target:removed_with_tag_of_other_flavor_only")
             if users_of[top][0]:
                 ctx.hist("target:has_user")
             if nontriv:
@@ -363,7 +395,8 @@ def corpus_items():
     return out
 
 
-FLOORS = ("target:has_user", "target:has_dependency", "target:shares_dependency")
+FLOORS = ("target:has_user", "target:has_dependency", "target:shares_dependency", "target:removed_with_second_flavor",
+          "target:removed_with_tag_of_other_flavor_only")
 
 
 def run(ctx):
